@@ -314,8 +314,25 @@ def run_check_locked(pid, tier, seed, replay=None, n_override=None):
         why = "coqc rc=%s; bad axioms=%s; missing Print Assumptions=%s; non-exact proofs=%s" % (
             props.get("rc"), props.get("bad_axioms"), props.get("missing_print"), props.get("undisciplined"))
         broken.append(("theorems of coq/%s/%s" % (group, cfg["props_file"]), why + "\n" + props["output"][-2000:]))
+    # further statement files of this property kept in other groups (cross-group theorems)
+    for xp in cfg.get("extra_props", []):
+        xg, xf = xp["group"], xp["file"]
+        xbuilt = build_group(xg, log)
+        toks += forbidden_tokens(xg)
+        if not xbuilt:
+            broken.append(("Coq build of group " + xg, log[-1][-2500:]))
+            continue
+        xr = check_props_file(xg, xf, log)
+        props["theorems"] = props["theorems"] + xr["theorems"]
+        props["obligations"] += xr["obligations"]
+        props["closed"] += xr["closed"]
+        props["axioms"] = sorted(set(props["axioms"]) | set(xr["axioms"]))
+        if not xr["ok"]:
+            props["ok"] = False
+            broken.append(("theorems of coq/%s/%s" % (xg, xf), "coqc rc=%s; bad axioms=%s; missing Print Assumptions=%s; non-exact proofs=%s\n%s" % (
+                xr.get("rc"), xr.get("bad_axioms"), xr.get("missing_print"), xr.get("undisciplined"), xr["output"][-2000:])))
     if toks:
-        broken.append(("forbidden declarations in the development", "\n".join(toks)))
+        broken.append(("forbidden declarations in the development", "\n".join(sorted(set(toks)))))
 
     # 3+4. harness and correspondence
     stats_all, monitor_hits, mismatches, n_case_files = [], [], [], 0
@@ -451,7 +468,8 @@ def run_check_locked(pid, tier, seed, replay=None, n_override=None):
             obligations=props["obligations"],
             discharged=props["obligations"] if (built and props["ok"]) else 0,
             checker_cmd="coq_makefile -f coq/%s/_CoqProject && make (full .vo); coqc coq/%s/%s with Print Assumptions under every theorem%s" % (
-                group, group, cfg["props_file"], "; coqchk -silent -o" if tier == "thorough" else ""),
+                group, group, cfg["props_file"], "; coqchk -silent -o" if tier == "thorough" else "") +
+                "".join("; the same for coq/%s/%s" % (x["group"], x["file"]) for x in cfg.get("extra_props", [])),
             trusted_base=cfg.get("trusted_base", []) + [
                 "Coq 8.16.1 kernel incl. vm_compute (no native_compute)",
                 "axioms reported by Print Assumptions: %s" % (", ".join(props["axioms"]) if props["axioms"] else "none (Closed under the global context x%d)" % props["closed"]),
@@ -489,7 +507,8 @@ def run_check_locked(pid, tier, seed, replay=None, n_override=None):
 
 def setup():
     rc_all = 0
-    groups = sorted({c["group"] for c in registered_cfgs()} | {h["group"] for c in registered_cfgs() for h in c.get("harness", []) if h.get("group")})
+    groups = sorted({c["group"] for c in registered_cfgs()} | {h["group"] for c in registered_cfgs() for h in c.get("harness", []) if h.get("group")}
+                    | {x["group"] for c in registered_cfgs() for x in c.get("extra_props", [])})
     for g in groups:
         log = []
         ok = build_group(g, log)
